@@ -1,8 +1,9 @@
 CONSTANTS HW = 7
-          Margins = {21, 2}
+          Margins = {1, 2, 3, 4, 5, 6}
           Anchors = {1, 2}
           NMax = 6
-          GenMod = 16
+          MCMod = 48
+          GenMod = 48
           TPad = 2
 INIT Init
 NEXT EvalGen
